@@ -47,6 +47,15 @@ def generate(ctx):
                'build_array %s' % gen.hexlist([gen.enc(v), gen.enc(w)]), 'build_object %s %s' % (gen.hexlist([b'k', b'a']), gen.hexlist([gen.enc(v), gen.enc(w)])),
                'get_by_path %s %s' % (e, p), 'get_by_path_first %s %s' % (e, p), 'get_by_path_array %s %s' % (e, p),
                'select %s %s all' % (e, p)]
+        if gen.is_finite(v) and gen.text_form(v) == v:
+            # the same functions with the document given as JSON TEXT (a separate dispatch branch in front of the writers): what is
+            # appended to a buffer that already holds bytes, and the offsets reported, must be as for the empty buffer
+            t = gen.json_text(v, r)
+            if t[:1] != b' ':
+                th = gen.hexarg(t)
+                ops += ['get_by_path %s %s' % (th, p), 'get_by_path_first %s %s' % (th, p), 'get_by_path_array %s %s' % (th, p), 'get_by_path %s R' % th,
+                        'convert_to_comparable %s' % th, 'strip_nulls %s' % th, 'concat %s %s' % (th, we), 'array_distinct %s' % th,
+                        'delete_by_index %s %d' % (th, r.randrange(-3, 4)), 'object_delete %s %s' % (th, gen.hexlist([gen.unhexarg(k)]))]
         if v[0] == 'o' and v[1]:
             # updates that keep every size (same key, a value with the same entry word): a tempting case for writing in place
             for kk, x in r.sample(v[1], min(len(v[1]), 3)):
